@@ -715,6 +715,7 @@ pub fn spec(id: &str, variant: &str, cancelable: bool, thorough: bool) -> Option
                 threads: (1, 2),
                 ops: (0, 40),
                 ..base.clone().set(&[
+                    (K::Churn, 3),
                     (K::SetLocalParent, 14),
                     (K::EnterLocal, 16),
                     (K::CollectorStart, 8),
@@ -824,6 +825,7 @@ pub fn spec(id: &str, variant: &str, cancelable: bool, thorough: bool) -> Option
                 ops: (0, 26),
                 reentrant: true,
                 ..base.clone().set(&[
+                    (K::Churn, 1),
                     (K::MultiChild, 8),
                     (K::Noop, 5),
                     (K::AddPropsH, 6),
